@@ -339,6 +339,12 @@ def execute(plan: dict) -> dict:
         counters["fault.F3_error_codes_configured"] = sum(len(v) for v in plan.get("errors", {}).values())
         counters["fault.F3_error_codes_fired"] = fired
     else:
+        for kid, c in list(truth.items()):
+            if c.shape != (C, T):
+                V.add("transition-infos", "count", f"{kid}: {c.shape[1] if c.ndim == 2 else c.shape} transition infos stored for {T} transitions (they must be stored for every transition)")
+        if V.items:
+            return {"violations": V.items, "digest": log.digest(), "tail": log.tail, "sig": "infos-count", "nontrivial": True,
+                    "counters": counters, "simtime": T * C, "subbatch": "F2-nan-density"}
         fired = int(sum((c != 0).sum() for c in truth.values()))
         counters["fault.F2_nan_density_code90_fired"] = fired
         for kid, c in truth.items():
